@@ -300,6 +300,7 @@ func checkC05(c *Ctx, r *Report) {
 		})
 	}
 	r.Floor("K2", inserts, 3)
+	checkParentsOfCleanPath(c, r, reach)
 	checkKeyForms(c, r, reach)
 
 	// sort dominates success return
@@ -447,54 +448,24 @@ func instrDominates(a, b ssa.Instruction) bool {
 
 // insertGuarded implements K2 for one insert.
 func insertGuarded(c *Ctx, fn *ssa.Function, mu *ssa.MapUpdate, collisionFns map[*ssa.Function]bool) (bool, string) {
-	var found string
-	forEachInstr(fn, func(in ssa.Instruction) {
-		if found != "" {
-			return
+	for _, g := range guardsOf(c, fn, mu) {
+		if g.ok == nil || g.ok.Referrers() == nil {
+			continue
 		}
-		lk, ok := in.(*ssa.Lookup)
-		if !ok || !lk.CommaOk || !sameValue(lk.X, mu.Map) {
-			return
-		}
-		if !instrDominates(lk, mu) {
-			return
-		}
-		// the ok flag must control a branch from which a collision error is
-		// returned without performing the insert
-		for _, ref := range *lk.Referrers() {
-			ex, ok := ref.(*ssa.Extract)
-			if !ok || ex.Index != 1 {
+		// the found flag must control a branch from which a collision error
+		// is returned without performing the insert
+		for _, r2 := range *g.ok.Referrers() {
+			ifi, ok := r2.(*ssa.If)
+			if !ok {
 				continue
 			}
-			for _, r2 := range *ex.Referrers() {
-				ifi, ok := r2.(*ssa.If)
-				if !ok {
-					continue
-				}
-				occupied := ifi.Block().Succs[0]
-				if reachesCollisionReturn(occupied, mu, collisionFns) {
-					found = fmt.Sprintf("dominated by lookup at %s whose occupied edge returns the collision error", c.instrPos(lk))
-				}
+			occupied := ifi.Block().Succs[0]
+			if reachesCollisionReturn(occupied, mu, collisionFns) {
+				return true, fmt.Sprintf("dominated by the collision probe at %s whose occupied edge returns the collision error", c.instrPos(g.at))
 			}
 		}
-	})
-	if found != "" {
-		return true, found
 	}
 	return false, "insert into the destination map is not dominated by a lookup on the same map whose occupied edge returns the content-collision error: an occupied destination would be silently replaced"
-}
-
-// guardingLookup returns the comma-ok lookup on the same map that dominates
-// the insert (the collision check).
-func guardingLookups(fn *ssa.Function, mu *ssa.MapUpdate) []*ssa.Lookup {
-	var out []*ssa.Lookup
-	forEachInstr(fn, func(in ssa.Instruction) {
-		lk, ok := in.(*ssa.Lookup)
-		if ok && lk.CommaOk && sameValue(lk.X, mu.Map) && instrDominates(lk, mu) {
-			out = append(out, lk)
-		}
-	})
-	return out
 }
 
 // checkReplacementTable (K2b): with the guarding lookup bound to "occupied by
@@ -502,30 +473,27 @@ func guardingLookups(fn *ssa.Function, mu *ssa.MapUpdate) []*ssa.Lookup {
 // only where the inserted entry is a directory ("only an explicitly declared
 // directory may take the place of an implied one").
 func checkReplacementTable(c *Ctx, r *Report, fn *ssa.Function, mu *ssa.MapUpdate, construct string) {
-	lks := guardingLookups(fn, mu)
+	lks := guardsOf(c, fn, mu)
 	if len(lks) == 0 {
 		return
 	}
 	insertsDir := insertedEntryMayBeDir(c, fn, mu)
 	insSp := joinSorted(keySpellings(c, mu.Key, fn, 0))
 	for li, hit := range lks {
-		// this lookup finds an occupant, the others do not
-		own := sameValue(hit.Index, mu.Key) || joinSorted(keySpellings(c, hit.Index, fn, 0)) == insSp
+		// this probe finds an occupant, the others do not; a helper that
+		// probes several spellings at once never licenses a replacement
+		own := hit.index != nil && (sameValue(hit.index, mu.Key) || joinSorted(hit.forms) == insSp)
 		for _, typ := range preparedTypes {
 			ev := newEvaluator(c)
 			ev.Bind = map[ssa.Value]AV{}
 			occ := newAObj("occupant")
 			occ.Fields["Type"] = cStr(typ)
-			for _, lk := range lks {
-				for _, ref := range *lk.Referrers() {
-					if ex, ok := ref.(*ssa.Extract); ok {
-						switch {
-						case ex.Index == 0 && lk == hit:
-							ev.Bind[ex] = avObj{occ}
-						case ex.Index == 1:
-							ev.Bind[ex] = cBool(lk == hit)
-						}
-					}
+			for lj, lk := range lks {
+				if lk.val != nil && lj == li {
+					ev.Bind[lk.val] = avObj{occ}
+				}
+				if lk.ok != nil {
+					ev.Bind[lk.ok] = cBool(lj == li)
 				}
 			}
 			fr := ev.Explore(fn, make([]AV, len(fn.Params)))
@@ -772,40 +740,46 @@ func checkKeyForms(c *Ctx, r *Report, reach map[*ssa.Function]bool) {
 	for _, s := range sites {
 		covered := map[string]bool{}
 		var keys []ssa.Value
-		var rawSwitch []*ssa.Lookup
-		forEachInstr(s.fn, func(in ssa.Instruction) {
-			lk, ok := in.(*ssa.Lookup)
-			if !ok || !sameValue(lk.X, s.mu.Map) || !instrDominates(lk, s.mu) {
-				return
+		var rawSwitch []ssa.Instruction
+		nkeys := 0
+		for _, g := range guardsOf(c, s.fn, s.mu) {
+			if g.index == nil {
+				// a helper probing the map: its lookups, with this call's arguments
+				for f := range g.forms {
+					covered[f] = true
+				}
+				nkeys += g.nkeys
+				continue
 			}
 			// a key obtained from the helper that switches between the two
 			// spellings covers the other kind only if the helper is given this
 			// entry's own normalised key: handed a raw destination it decides
 			// by the raw spelling (a trailing slash in the configuration)
-			if call, ok := lk.Index.(*ssa.Call); ok && len(formOf(lk.Index, s.fn)) > 1 && len(call.Call.Args) == 1 {
+			if call, ok := g.index.(*ssa.Call); ok && call.Call.StaticCallee() != nil && len(g.forms) > 1 && len(call.Call.Args) == 1 {
 				if len(formOf(call.Call.Args[0], s.fn)) == 0 {
-					rawSwitch = append(rawSwitch, lk)
-					return
+					rawSwitch = append(rawSwitch, g.at)
+					continue
 				}
 			}
-			for f := range formOf(lk.Index, s.fn) {
+			for f := range g.forms {
 				covered[f] = true
 			}
 			dup := false
 			for _, k := range keys {
-				if sameValue(k, lk.Index) {
+				if sameValue(k, g.index) {
 					dup = true
 				}
 			}
 			if !dup {
-				keys = append(keys, lk.Index)
+				keys = append(keys, g.index)
+				nkeys++
 			}
-		})
+		}
 		// one looked-up key has one spelling at run time, whatever the set of
 		// spellings it may have statically: two spellings need two lookups
-		if len(keys) < len(forms) {
+		if nkeys < len(forms) {
 			covered = map[string]bool{}
-			if len(keys) == 1 {
+			if len(keys) == 1 && nkeys == 1 {
 				for f := range formOf(keys[0], s.fn) {
 					covered["own spelling: "+f] = true
 				}
@@ -865,6 +839,17 @@ func keySpellings(c *Ctx, v ssa.Value, fn *ssa.Function, depth int) map[string]b
 			}
 		}
 	case *ssa.UnOp:
+		// a local variable held in a cell (captured by a closure, reassigned)
+		if al, ok := x.X.(*ssa.Alloc); ok {
+			for _, ref := range *al.Referrers() {
+				if st, ok := ref.(*ssa.Store); ok && st.Addr == ssa.Value(al) {
+					for f := range keySpellings(c, st.Val, fn, depth+1) {
+						out[f] = true
+					}
+				}
+			}
+			return out
+		}
 		if fa, ok := x.X.(*ssa.FieldAddr); ok && fieldName(fa.X.Type(), fa.Field) == "Destination" {
 			forEachInstr(fn, func(in ssa.Instruction) {
 				st, ok := in.(*ssa.Store)
@@ -955,4 +940,243 @@ func insertsParamEntry(mu *ssa.MapUpdate) bool {
 	}
 	_, isParam := call.Call.Args[0].(*ssa.Parameter)
 	return isParam
+}
+
+// guardLookup is a collision probe that dominates an insert: a comma-ok
+// lookup on the destination map, or a call of a module helper that performs
+// such lookups on the map it is handed and returns (occupant, found).
+type guardLookup struct {
+	at    ssa.Instruction
+	val   ssa.Value // the occupant (Extract #0), may be nil
+	ok    ssa.Value // the found flag (Extract #1)
+	index ssa.Value // key of a direct lookup (nil for a helper)
+	forms map[string]bool
+	nkeys int
+}
+
+func guardsOf(c *Ctx, fn *ssa.Function, mu *ssa.MapUpdate) []guardLookup {
+	var out []guardLookup
+	extracts := func(v ssa.Value) (val, ok ssa.Value) {
+		if v.Referrers() == nil {
+			return
+		}
+		for _, ref := range *v.Referrers() {
+			if ex, isEx := ref.(*ssa.Extract); isEx {
+				switch ex.Index {
+				case 0:
+					val = ex
+				case 1:
+					ok = ex
+				}
+			}
+		}
+		return
+	}
+	forEachInstr(fn, func(in ssa.Instruction) {
+		switch x := in.(type) {
+		case *ssa.Lookup:
+			if !x.CommaOk || !sameValue(x.X, mu.Map) || !instrDominates(x, mu) {
+				return
+			}
+			v, ok := extracts(x)
+			out = append(out, guardLookup{x, v, ok, x.Index, keySpellings(c, x.Index, fn, 0), 1})
+		case *ssa.Call:
+			sc := x.Call.StaticCallee()
+			if sc == nil || sc.Blocks == nil || !c.isModuleFunc(sc) || !instrDominates(x, mu) {
+				return
+			}
+			// which parameter receives the map?
+			mi := -1
+			for i, a := range x.Call.Args {
+				if sameValue(a, mu.Map) {
+					mi = i
+				}
+			}
+			res := sc.Signature.Results()
+			if mi < 0 || mi >= len(sc.Params) || res.Len() != 2 || !isContentPtr(res.At(0).Type()) {
+				return
+			}
+			if b, isB := res.At(1).Type().Underlying().(*types.Basic); !isB || b.Kind() != types.Bool {
+				return
+			}
+			forms := map[string]bool{}
+			n := 0
+			forEachInstr(sc, func(i2 ssa.Instruction) {
+				lk, isLk := i2.(*ssa.Lookup)
+				if !isLk || !lk.CommaOk || lk.X != ssa.Value(sc.Params[mi]) {
+					return
+				}
+				n++
+				for f := range keySpellingsAt(c, lk.Index, sc, x) {
+					forms[f] = true
+				}
+			})
+			if n == 0 {
+				return
+			}
+			v, ok := extracts(x)
+			out = append(out, guardLookup{x, v, ok, nil, forms, n})
+		}
+	})
+	return out
+}
+
+// keySpellingsAt: spellings of a key expression inside a helper, with the
+// helper's parameters standing for the arguments of one call of it.
+func keySpellingsAt(c *Ctx, v ssa.Value, helper *ssa.Function, call *ssa.Call) map[string]bool {
+	if prm, ok := v.(*ssa.Parameter); ok {
+		for i, q := range helper.Params {
+			if q == prm && i < len(call.Call.Args) {
+				return keySpellings(c, call.Call.Args[i], call.Parent(), 0)
+			}
+		}
+	}
+	if cv, ok := v.(*ssa.Call); ok {
+		if sc := cv.Call.StaticCallee(); sc != nil && len(cv.Call.Args) == 1 {
+			inner := keySpellingsAt(c, cv.Call.Args[0], helper, call)
+			outer := keySpellings(c, v, helper, 0)
+			if len(outer) > 1 && len(inner) > 0 {
+				// the spelling switcher applied to a normalised key: the other spelling
+				out := map[string]bool{}
+				for f := range outer {
+					if !inner[f] {
+						out[f] = true
+					}
+				}
+				if len(out) > 0 {
+					return out
+				}
+			}
+			return outer
+		}
+	}
+	return keySpellings(c, v, helper, 0)
+}
+
+// checkParentsOfCleanPath (O5-parents-clean): the ancestors that are added
+// for an entry are those of its *normalised* destination. The enumeration of
+// ancestors (the loop over filepath.Dir) must start from a value that went
+// through files.NormalizeAbsolute*, inside the enumerating function or at
+// every call site that feeds it: started from a raw destination such as
+// "../x" it yields ".." and a directory above the root is planned.
+func checkParentsOfCleanPath(c *Ctx, r *Report, reach map[*ssa.Function]bool) {
+	n := 0
+	for _, fn := range sortedFuncs(c, reach) {
+		if c.funcPkgPath(fn) != filesPath {
+			continue
+		}
+		forEachInstr(fn, func(in ssa.Instruction) {
+			call, ok := in.(*ssa.Call)
+			if !ok || !(calleeIs(call, "path/filepath", "", "Dir") || calleeIs(call, "path", "", "Dir")) {
+				return
+			}
+			phi, ok := call.Call.Args[0].(*ssa.Phi)
+			if !ok {
+				return
+			}
+			// the loop-carried ancestor: one edge is the Dir result itself
+			cyc := false
+			var starts []ssa.Value
+			for _, e := range phi.Edges {
+				if e == ssa.Value(call) {
+					cyc = true
+				} else {
+					starts = append(starts, e)
+				}
+			}
+			if !cyc {
+				return
+			}
+			n++
+			okAll := true
+			why := "the enumeration starts from a normalised path"
+			for _, st := range starts {
+				if ok, w := startsNormalised(c, st, map[ssa.Value]bool{}, 0); !ok {
+					okAll = false
+					why = w
+				}
+			}
+			r.Check(okAll, "O5-parents-clean", "ancestors enumerated in "+c.funcKey(fn)+" are those of the normalised destination", c.instrPos(call), why)
+		})
+	}
+	r.Floor("O5-parents-clean", n, 1)
+}
+
+func startsNormalised(c *Ctx, v ssa.Value, seen map[ssa.Value]bool, d int) (bool, string) {
+	if v == nil || d > 10 {
+		return false, "definition chain too deep to decide"
+	}
+	if seen[v] {
+		return true, ""
+	}
+	seen[v] = true
+	switch x := v.(type) {
+	case *ssa.Call:
+		o := calleeObj(x)
+		if o == nil {
+			return false, "result of a dynamic call"
+		}
+		if sc := x.Call.StaticCallee(); sc != nil && c.funcPkgPath(sc) == filesPath && strings.HasPrefix(sc.Name(), "NormalizeAbsolute") {
+			return true, ""
+		}
+		switch qualifiedName(o) {
+		case "strings.Trim", "strings.TrimLeft", "strings.TrimRight", "strings.TrimSuffix", "strings.TrimPrefix", "path/filepath.ToSlash", "path/filepath.Clean", "path.Clean":
+			return startsNormalised(c, x.Call.Args[0], seen, d+1)
+		}
+		if sc := x.Call.StaticCallee(); sc != nil && sc.Blocks != nil && c.isModuleFunc(sc) && len(x.Call.Args) == 1 {
+			return startsNormalised(c, x.Call.Args[0], seen, d+1)
+		}
+		return false, "result of " + funcObjName(o)
+	case *ssa.Phi:
+		for _, e := range x.Edges {
+			if ok, w := startsNormalised(c, e, seen, d+1); !ok {
+				return false, w
+			}
+		}
+		return true, ""
+	case *ssa.Parameter:
+		fn := x.Parent()
+		idx := -1
+		for i, p := range fn.Params {
+			if p == x {
+				idx = i
+			}
+		}
+		if candPA == nil || candCtx != c {
+			candPA, candCtx = newProv(c), c
+		}
+		sites := candPA.callSites(fn)
+		if len(sites) == 0 || idx < 0 {
+			return false, "parameter " + x.Name() + " of " + c.funcKey(fn) + " (no call site to inspect)"
+		}
+		for _, cs := range sites {
+			if cs.Common().StaticCallee() != fn || idx >= len(cs.Common().Args) {
+				continue
+			}
+			a := cs.Common().Args[idx]
+			if len(keySpellings(c, a, cs.Parent(), 0)) > 0 {
+				continue
+			}
+			if ok, w := startsNormalised(c, a, seen, d+1); !ok {
+				if strings.HasPrefix(w, "at ") {
+					return false, w
+				}
+				return false, fmt.Sprintf("at %s the path handed to %s is the destination as configured (%s), not its normalised form: for a destination such as \"../x\" the ancestors enumerated are \"..\" - a directory above the root is added to the plan", c.instrPos(cs), c.funcKey(fn), shorten(valueExpr(c, a, 0), 60))
+			}
+		}
+		return true, ""
+	case *ssa.UnOp:
+		if al, ok := x.X.(*ssa.Alloc); ok {
+			for _, ref := range *al.Referrers() {
+				if st, ok := ref.(*ssa.Store); ok && st.Addr == ssa.Value(al) {
+					if ok2, w := startsNormalised(c, st.Val, seen, d+1); !ok2 {
+						return false, w
+					}
+				}
+			}
+			return true, ""
+		}
+		return false, "a raw field read " + shorten(valueExpr(c, v, 0), 60)
+	}
+	return false, "unrecognised definition " + shorten(valueExpr(c, v, 0), 60)
 }
